@@ -132,19 +132,21 @@ Definition single_frame_stmt : Prop :=
 (* the key under which a first frame is stored *)
 Definition key_match (s:slot) (pgn src dst:Z) : bool := (s_pgn s =? pgn) && (s_src s =? src) && (s_dst s =? dst) && negb (s_tp s).
 
-(* a new first frame whose key (PGN, source, destination, not TP) is found by the slot search re-initialises that slot: whatever the
-   unfinished message had collected is gone, the slot holds exactly the new frame's data *)
+(* a new first frame of a key (PGN, source, destination, not TP) that has an unfinished slot ALWAYS lands in that slot (the first one, should
+   there be several) and re-initialises it: whatever the unfinished message had collected is gone, the slot holds exactly the new frame's
+   data; no other slot changes *)
+Definition busy_key (s:slot) (pgn src dst:Z) : bool := negb (s_free s) && key_match s pgn src dst.
 Definition supersede_stmt : Prop :=
-  forall r f r1 ev idx i,
+  forall r f r1 ev idx (i:nat),
     rx_frame r f = (r1, ev, idx) ->
     is_tp_frame f = false -> rx_fast (n_pgn (rn r)) (fpgn f) = true -> Z.land (fbyte f 0) 31 = 0 ->
     (rx_known (n_pgn (rn r)) (fpgn f) || negb (c_only_known (r_cfg r))) = true ->
-    find_free_slot r (fpgn f) (fsrc f) (fdst f) false = (r_slots r, i) -> 0 <= i < nslots r ->
-    key_match (get_slot r i) (fpgn f) (fsrc f) (fdst f) = true ->
-    let s := get_slot r1 i in
+    (i < length (r_slots r))%nat -> busy_key (nth i (r_slots r) slot0) (fpgn f) (fsrc f) (fdst f) = true ->
+    (forall k, (k < i)%nat -> busy_key (nth k (r_slots r) slot0) (fpgn f) (fsrc f) (fdst f) = false) ->
+    let s := nth i (r_slots r1) slot0 in
     s_data s = firstn MAXLEN (chunk 2 f) /\ s_len s = fbyte f 1 /\ s_last s = fbyte f 0 /\ s_pri s = fpri f /\
     key_match s (fpgn f) (fsrc f) (fdst f) = true /\ s_free s = false /\
-    (forall j, 0 <= j -> j <> i -> get_slot r1 j = get_slot r j).
+    (forall j, j <> i -> nth j (r_slots r1) slot0 = nth j (r_slots r) slot0).
 
 (* a continuation frame whose sequence byte is not LastFrame+1 frees the slot it belongs to: the slot is clear afterwards (PGN 0, no
    length), nothing is reported ready, and no other slot changes; by rx_no_corruption nothing of that message can be delivered unless a
@@ -193,8 +195,10 @@ Definition fast_first (r:rnode) (f0:rxframe) : Prop :=
 
 (* (a) first frame: if the slot search finds a place (a free slot, a slot of the same key, or - table full - the oldest slot is 100 ms old),
        the message is delivered at once when the first frame carries it all, otherwise the slot holds the run *)
+(* a free slot is a cleared slot (true of every reachable table: see rx_complete) *)
+Definition free_clear (r:rnode) : Prop := Forall (fun s => s_free s = true -> s_pgn s = 0) (r_slots r).
 Definition rx_complete_first_stmt : Prop :=
-  forall gf r f0, gf_ok gf -> fast_first r f0 ->
+  forall gf r f0, gf_ok gf -> fast_first r f0 -> free_clear r ->
     snd (find_free_slot r (fpgn f0) (fsrc f0) (fdst f0) false) < nslots r ->
     let '(r1, ev) := rx_iter gf r f0 in
     if run_complete f0 [] then fp_dlv ev = [run_msg f0 []]
@@ -242,40 +246,31 @@ Fixpoint seq_ok (b:Z) (cs:list rxframe) (f0:rxframe) : Prop :=
   | c :: r => same_key f0 c /\ is_tp_frame c = false /\ fbyte c 0 = b + 1 /\ Z.land (fbyte c 0) 31 <> 0 /\ seq_ok (b+1) r f0
   end.
 Definition rx_complete_poll_stmt : Prop :=
-  forall gf r f0 cs q k, gf_ok gf -> fast_first r f0 ->
+  forall gf r f0 cs q k, gf_ok gf -> fast_first r f0 -> free_clear r ->
     r_q r = f0 :: q -> interleaved f0 cs q -> seq_ok (fbyte f0 0) cs f0 -> (length q < k)%nat ->
     run_complete f0 cs = true -> (forall cs', (length cs' < length cs)%nat -> cs' = firstn (length cs') cs -> run_complete f0 cs' = false) ->
     snd (find_free_slot (with_rxq r q) (fpgn f0) (fsrc f0) (fdst f0) false) < nslots r ->
     In (run_msg f0 cs) (fp_dlv (snd (rx_loop gf k r))).
 
-(* The full form - "as long as no more (PGN, source, destination) keys are in use than there are slots, every run that arrives completely
-   and in order is delivered" - is FALSE of the code (finding 'complete-stale'): FindFreeCANMsgIndex takes the first slot that is free OR
-   has the key, so a superseding first frame may be stored in a free slot below the stale slot of its key; the stale slot keeps its place
-   (until it is 100 ms old and a frame needs a place), and a message of another sender finds the table full. *)
+(* The full form: as long as no more (PGN, source, destination) keys are in use than there are slots, every run that arrives completely
+   and in order is delivered - whatever else arrives before and in between (other senders, abandoned and restarted messages of the
+   same sender, ISO-TP announcements, frames the node ignores).  Since the repair of FindFreeCANMsgIndex (a busy slot of the key is
+   preferred to a free slot) every key holds at most one slot, an ISO-TP session counts under the key of its TP.CM frames, and no
+   eviction is ever needed.  Stated for a table that starts idle (every slot free and clear) and a queue handled by one loop. *)
 Definition key_of (f:rxframe) : Z * Z * Z := (fpgn f, fsrc f, fdst f).
-Definition rx_complete_stmt : Prop :=      (* not provable: refuted by rx_complete_false *)
+Definition rx_idle (r:rnode) : Prop := r_q r = [] /\ Forall (fun s => s_free s = true /\ s_pgn s = 0) (r_slots r).
+Definition rx_complete_stmt : Prop :=
   forall gf r pre f0 post cs (keys:list (Z * Z * Z)) k,
-    gf_ok gf -> rx_clean (with_rxq r []) -> r_q r = pre ++ f0 :: post ->
+    gf_ok gf -> rx_idle (with_rxq r []) -> r_q r = pre ++ f0 :: post ->
     Z.of_nat (length keys) <= nslots r -> (forall f, In f (r_q r) -> In (key_of f) keys) ->
     fast_first r f0 -> interleaved f0 cs post -> seq_ok (fbyte f0 0) cs f0 -> run_complete f0 cs = true ->
     (forall cs', (length cs' < length cs)%nat -> cs' = firstn (length cs') cs -> run_complete f0 cs' = false) ->
     (length (r_q r) <= k)%nat ->
     In (run_msg f0 cs) (fp_dlv (snd (rx_loop gf k r))).
-Definition rx_complete_false_stmt : Prop := ~ rx_complete_stmt.
-(* the witness, spelled out: two senders, two slots, clean start, all frames in one poll *)
 Definition mkf (id:Z) (buf:list Z) : rxframe := {| r_id := id; r_len := 8; r_buf := buf |}.
-Definition rx_complete_refuted_stmt : Prop :=
-  exists (r:rnode) (q:list rxframe) (x2:msg),
-    rx_clean (with_rxq r []) /\ nslots r = 2 /\ r_q r = q /\
-    (* at most two keys are ever involved *)
-    (forall f, In f q -> (fpgn f, fsrc f) = (129029, 10) \/ (fpgn f, fsrc f) = (129540, 11)) /\
-    (* the second message of sender 10 arrives completely and in order ... *)
-    (exists f0 c1 pre mid post, q = pre ++ f0 :: mid ++ c1 :: post /\ fast_first r f0 /\ seq_ok (fbyte f0 0) [c1] f0 /\
-        run_complete f0 [c1] = true /\ run_msg f0 [c1] = x2 /\ (forall g, In g mid -> ~ touches_key f0 g)) /\
-    (* ... and is not delivered *)
-    ~ In x2 (dlv_of (snd (rx_loop gf_none 20 r))).
-(* what IS true (rx_complete_partial): the four statements above - a place at the first frame (free slot, slot of the same key, or oldest
-   slot 100 ms old), sender discipline for the run's own key, and the run's slot younger than 100 ms whenever other traffic needs a place *)
+(* the step statements bundled: a place at the first frame (slot of the same key, free slot, or oldest slot 100 ms old), sender discipline
+   for the run's own key, and the run's slot younger than 100 ms whenever other traffic needs a place; they also cover tables that are
+   over capacity and runs that span several polls *)
 Definition rx_complete_partial_stmt : Prop :=
   rx_complete_first_stmt /\ rx_complete_cont_stmt /\ rx_complete_other_stmt /\ rx_complete_poll_stmt.
 
